@@ -563,6 +563,8 @@ class Abs:
             o, a = args
             if isinstance(o, Obj):
                 return a in o.attrs or (o is self.self_obj and a in self.getters)
+            if getattr(o, "_abs_native", False) and isinstance(a, str):
+                return hasattr(o, a)
             if a == "__len__":
                 return isinstance(o, (list, tuple, dict, str))
             if a == "__iter__":
